@@ -7,9 +7,20 @@ def showState (q : PQ) : String :=
   let pk := q.queue.map (fun p => s!"{p.data.length}/{p.hdr.length}")
   s!"[{q.ip},{q.id},{if q.eom then 1 else 0},{joinSep "," pk}]"
 
+/-- method variants of one operation: `ws` WriteString and `wy` Write (io.Writer) write the bytes of `w`,
+`wi` WriteInt* the bytes of `wu` (value given as its two's complement), `st` String(n) reads the bytes of
+`b`, `i` Int* the value of `u` (shown as its two's complement) -/
+def normParts : List String → List String
+  | "ws" :: r => "w" :: r
+  | "wy" :: r => "w" :: r
+  | "wi" :: r => "wu" :: r
+  | "st" :: r => "b" :: r
+  | "i" :: r => "u" :: r
+  | l => l
+
 /-- run one op token; `none` = stop (panic or malformed) with the given final token -/
 def stepOp (q : PQ) (tok : String) : Except String (PQ × String) :=
-  match tok.splitOn ":" with
+  match normParts (tok.splitOn ":") with
   | ["a", st, hl, hex] =>
     match st.toNat?, hl.toNat?, fromHex hex with
     | some st, some hl, some d =>
